@@ -220,6 +220,12 @@ def E(name: str, group: str, kind: str, srcs: list, gen: Callable, make: Callabl
     ENTRIES[name] = Entry(name, group, kind, srcs, gen, make, **kw)
 
 
+# key_repr of the registry uses repr(), which shows the address of objects created per subscription (notifications,
+# windows): not a pure function of the value. The catalog uses the canonical form instead.
+KEYS = dict(R.KEYS)
+KEYS["key_repr"] = lambda v: repr(canon(v))
+
+
 def ch(r: Any, d: dict) -> str:
     return r.choice(sorted(d))
 
@@ -268,11 +274,11 @@ E("scan", "scan", "op", [S(lo=1)], lambda r: {"acc": ch(r, R.ACCUMULATORS), "see
 E("reduce", "reduce", "op", [S("C", lo=1)], lambda r: {"acc": ch(r, R.ACCUMULATORS), "seed": ch(r, SEEDS)},
   lambda env, P: ops.reduce(R.ACCUMULATORS[P["acc"]], *seed_kw(P)), stage=True)
 E("distinct", "distinct", "op", [S(lo=2, domain="dups")],
-  lambda r: {"key": r.choice([None, None] + sorted(R.KEYS)), "cmp": r.choice([None, None] + sorted(R.COMPARERS))},
-  lambda env, P: ops.distinct(R.KEYS[P["key"]] if P["key"] else None, R.COMPARERS[P["cmp"]] if P["cmp"] else None), stage=True)
+  lambda r: {"key": r.choice([None, None] + sorted(KEYS)), "cmp": r.choice([None, None] + sorted(R.COMPARERS))},
+  lambda env, P: ops.distinct(KEYS[P["key"]] if P["key"] else None, R.COMPARERS[P["cmp"]] if P["cmp"] else None), stage=True)
 E("distinct_until_changed", "distinct_until_changed", "op", [S(lo=2, domain="dups")],
-  lambda r: {"key": r.choice([None, None] + sorted(R.KEYS)), "cmp": r.choice([None, None] + sorted(R.COMPARERS))},
-  lambda env, P: ops.distinct_until_changed(R.KEYS[P["key"]] if P["key"] else None, R.COMPARERS[P["cmp"]] if P["cmp"] else None),
+  lambda r: {"key": r.choice([None, None] + sorted(KEYS)), "cmp": r.choice([None, None] + sorted(R.COMPARERS))},
+  lambda env, P: ops.distinct_until_changed(KEYS[P["key"]] if P["key"] else None, R.COMPARERS[P["cmp"]] if P["cmp"] else None),
   stage=True)
 E("buffer_with_count", "buffer_with_count", "op", [S(lo=2)], lambda r: {"count": r.randint(1, 3), "skip": r.choice([None, 1, 2, 4])},
   lambda env, P: ops.buffer_with_count(P["count"], P["skip"]), stage=True)
@@ -315,8 +321,8 @@ E("sum", "sum", "op", [TERM], none, lambda env, P: ops.sum(R.num), stage=True)
 E("average", "average", "op", [TERM], none, lambda env, P: ops.average(R.num), stage=True)
 E("min", "min", "op", [TERM], lambda r: {"c": ch(r, R.SUBCOMPARERS)}, lambda env, P: ops.min(R.SUBCOMPARERS[P["c"]]), stage=True)
 E("max", "max", "op", [TERM], lambda r: {"c": ch(r, R.SUBCOMPARERS)}, lambda env, P: ops.max(R.SUBCOMPARERS[P["c"]]), stage=True)
-E("min_by", "min_by", "op", [TERM], lambda r: {"k": ch(r, R.KEYS)}, lambda env, P: ops.min_by(lambda v: R.num(R.KEYS[P["k"]](v))), stage=True)
-E("max_by", "max_by", "op", [TERM], lambda r: {"k": ch(r, R.KEYS)}, lambda env, P: ops.max_by(lambda v: R.num(R.KEYS[P["k"]](v))), stage=True)
+E("min_by", "min_by", "op", [TERM], lambda r: {"k": ch(r, KEYS)}, lambda env, P: ops.min_by(lambda v: R.num(KEYS[P["k"]](v))), stage=True)
+E("max_by", "max_by", "op", [TERM], lambda r: {"k": ch(r, KEYS)}, lambda env, P: ops.max_by(lambda v: R.num(KEYS[P["k"]](v))), stage=True)
 E("all", "all", "op", [TERM], lambda r: {"p": ch(r, R.PREDICATES)}, lambda env, P: ops.all(R.PREDICATES[P["p"]]), stage=True)
 E("some", "some", "op", [TERM], lambda r: {"p": r.choice([None] + sorted(R.PREDICATES))},
   lambda env, P: ops.some(R.PREDICATES[P["p"]] if P["p"] else None), stage=True)
@@ -325,8 +331,8 @@ E("contains", "contains", "op", [TERM], lambda r: {"v": r.choice([0, 1, 2, None]
 E("is_empty", "is_empty", "op", [S("CE", hi=1)], none, lambda env, P: ops.is_empty(), stage=True)
 E("to_list", "to_list", "op", [TERM], none, lambda env, P: ops.to_list(), stage=True)
 E("to_set", "to_set", "op", [S("CE", domain="hfalsy")], none, lambda env, P: ops.to_set(), stage=True)
-E("to_dict", "to_dict", "op", [TERM], lambda r: {"k": ch(r, R.KEYS), "m": r.choice([None] + sorted(R.MAPPERS))},
-  lambda env, P: ops.to_dict(R.KEYS[P["k"]], R.MAPPERS[P["m"]] if P["m"] else None), stage=True)
+E("to_dict", "to_dict", "op", [TERM], lambda r: {"k": ch(r, KEYS), "m": r.choice([None] + sorted(R.MAPPERS))},
+  lambda env, P: ops.to_dict(KEYS[P["k"]], R.MAPPERS[P["m"]] if P["m"] else None), stage=True)
 E("materialize", "materialize", "op", [ANY], none, lambda env, P: ops.materialize(), stage=True)
 E("dematerialize", "dematerialize", "op", [ANY], none, lambda env, P: rx.compose(ops.materialize(), ops.dematerialize()), stage=True)
 E("do_action", "do_action", "op", [ANY], none,
@@ -525,10 +531,10 @@ E("buffer_toggle", "buffer_toggle", "op", [S(lo=1), S(lo=1), S(hi=2)], none,
   lambda env, P: ops.buffer_toggle(env.src(1), lambda v: env.src(2)))
 E("window_toggle", "window_toggle", "op", [S(lo=1), S(lo=1), S(hi=2)], none,
   lambda env, P: ops.window_toggle(env.src(1), lambda v: env.src(2)))
-E("group_by", "group_by", "op", [S(lo=2)], lambda r: {"k": ch(r, R.KEYS), "m": r.choice([None] + sorted(R.MAPPERS))},
-  lambda env, P: ops.group_by(R.KEYS[P["k"]], R.MAPPERS[P["m"]] if P["m"] else None))
-E("group_by_until", "group_by_until", "op", [S(lo=2), S(hi=2)], lambda r: {"k": ch(r, R.KEYS)},
-  lambda env, P: ops.group_by_until(R.KEYS[P["k"]], None, lambda g: env.src(1)))
+E("group_by", "group_by", "op", [S(lo=2)], lambda r: {"k": ch(r, KEYS), "m": r.choice([None] + sorted(R.MAPPERS))},
+  lambda env, P: ops.group_by(KEYS[P["k"]], R.MAPPERS[P["m"]] if P["m"] else None))
+E("group_by_until", "group_by_until", "op", [S(lo=2), S(hi=2)], lambda r: {"k": ch(r, KEYS)},
+  lambda env, P: ops.group_by_until(KEYS[P["k"]], None, lambda g: env.src(1)))
 E("join", "join", "op", [S(lo=1), S(lo=1), S(hi=1), S(hi=1)], none,
   lambda env, P: ops.join(env.src(1), lambda v: env.src(2), lambda v: env.src(3)))
 E("delay_with_mapper", "delay_with_mapper", "op", [S(lo=1), S(hi=1), S(hi=1)], lambda r: {"sub": r.random() < 0.5},
